@@ -194,6 +194,10 @@ func (o OneOfSchema[KeyType]) Unserialize(data any) (any, error) {
 }
 
 func (o OneOfSchema[KeyType]) ValidateCompatibility(typeOrData any) error {
+	return o.validateCompatibilityIn(typeOrData, comparedObjects{})
+}
+
+func (o OneOfSchema[KeyType]) validateCompatibilityIn(typeOrData any, compared comparedObjects) error {
 	// If a schema is given, validate that it's a oneof schema. If it isn't, fail.
 	// If a schema is not given, validate as data.
 
@@ -222,10 +226,10 @@ func (o OneOfSchema[KeyType]) ValidateCompatibility(typeOrData any) error {
 		}
 	}
 
-	return o.validateSchema(schemaType)
+	return o.validateSchema(schemaType, compared)
 }
 
-func (o OneOfSchema[KeyType]) validateSchema(otherSchema OneOfSchema[KeyType]) error {
+func (o OneOfSchema[KeyType]) validateSchema(otherSchema OneOfSchema[KeyType], compared comparedObjects) error {
 	// Validate that the discriminator fields match, and all other values match.
 
 	// Validate the discriminator field name
@@ -245,7 +249,7 @@ func (o OneOfSchema[KeyType]) validateSchema(otherSchema OneOfSchema[KeyType]) e
 					"validation failed for OneOfSchema. OneOf key '%v' is not present in given type", key),
 			}
 		}
-		err := typeValue.ValidateCompatibility(matchingTypeValue)
+		err := validateCompatibilityIn(typeValue, matchingTypeValue, compared)
 		if err != nil {
 			return &ConstraintError{
 				Message: fmt.Sprintf(
